@@ -127,6 +127,7 @@ def _delay_recorder(log):
 
 ALIAS_LISTS = [
     ["x-y"], ["x+y"], ["x-y", "y-z"], ["x-y", "x-y"], ["x-s"], ["x-s", "y-x"], ["dx-x", "x-s2"], ["x-s", "x-s2"], ["x-y", "z*c", "z-s"], ["x-p"],
+    ["x-y", "y-z", "z+x"], ["x+y", "y-x"], ["x-s", "y-x", "y+s"],       # alias cycles with an odd number of negative links (regular: only solution 0)
 ]
 
 
@@ -144,7 +145,8 @@ def h_alias_counting(eng):
     mk = {"x-y": lambda: E("OP_SUB", syms["x"], syms["y"]), "x+y": lambda: E("OP_ADD", syms["x"], syms["y"]), "y-z": lambda: E("OP_SUB", syms["y"], syms["z"]),
           "x-s": lambda: E("OP_SUB", syms["x"], syms["s"]), "y-x": lambda: E("OP_SUB", syms["y"], syms["x"]), "dx-x": lambda: E("OP_SUB", syms["der(s)"], syms["x"]),
           "x-s2": lambda: E("OP_SUB", syms["x"], syms["s2"]), "z*c": lambda: E("OP_MUL", syms["z"], c), "z-s": lambda: E("OP_SUB", syms["z"], syms["s"]),
-          "x-p": lambda: E("OP_SUB", syms["x"], syms["p"])}
+          "x-p": lambda: E("OP_SUB", syms["x"], syms["p"]), "z+x": lambda: E("OP_ADD", syms["z"], syms["x"]),
+          "y+s": lambda: E("OP_ADD", syms["y"], syms["s"])}
     eqs = [mk[s]() for s in lst]
 
     def var(n):
